@@ -71,3 +71,51 @@ Example C05_nontrivial :
   exists s, run c (init c i) sched = Some s /\ nocancel s /\ consumer_saw_end s /\ has_failure i /\
             errors_registered c s = 1 /\ got s = 2.
 Proof. eexists. split; [vm_compute; reflexivity|]. unfold nocancel, consumer_saw_end, has_failure. simpl. auto 10. Qed.
+
+(* ------------------------------------------------------------------ oracle soundness *)
+(* The run-time check evaluates [c05_ok must obs] (Model/SysReader.v) on what it saw of the Go
+   reader: must = [has_failureb input]; obs = up to three observations "Err() is non-nil", each
+   made after the consumer had seen Next() = false and before Close/cancel (the first only when
+   the stall point was reached).  The model's observation in a state s is
+   [err_obs c s] = (0 <? errors_registered c s)   (Proofs/OracleC05C06.v).
+
+   The oracle demands MORE than C05_error_visible: also that no error shows up when the input has
+   no failure.  That direction holds in the model too, at every moment of every run nobody
+   cancelled, for every configuration: *)
+From FV.Proofs Require Import OracleC05C06.
+
+Theorem C05_no_spurious_error : forall (c : cfg) (input : input) (sched : list tid) (s : state),
+  run c (init c input) sched = Some s -> nocancel s -> ~ has_failure input ->
+  errors_registered c s = 0.
+Proof. exact no_spurious_error. Qed.
+Print Assumptions C05_no_spurious_error.
+
+Theorem C05_has_failureb : forall i, has_failureb i = true <-> has_failure i.
+Proof. exact has_failureb_iff. Qed.
+Print Assumptions C05_has_failureb.
+
+(* For every input, every schedule sched1 after which the consumer has seen the end (state s1), every
+   continuation to s2 and every further continuation to s3, no context cancelled up to s3: the
+   three observations (the first possibly missing) satisfy the oracle. *)
+Theorem C05_oracle_sound : forall c i sched1 sched2 sched3 s1 s2 s3 o1,
+  c_abc c = true ->
+  run c (init c i) sched1 = Some s1 -> run c s1 sched2 = Some s2 -> run c s2 sched3 = Some s3 ->
+  consumer_saw_end s1 -> nocancel s3 ->
+  o1 = None \/ o1 = Some (err_obs c s1) ->
+  c05_ok (has_failureb i) [o1; Some (err_obs c s2); Some (err_obs c s3)] = true.
+Proof. exact c05_oracle_sound. Qed.
+Print Assumptions C05_oracle_sound.
+
+(* [c05_catcher_ok] is evaluated on a stand-alone catcher to which g goroutines add m errors each
+   (the "CATCHER" lines): Len(), the number of errors Resolve() lists, HasErrors(), Resolve() <> nil,
+   Len() never decreasing.  The model has no such scenario of its own; its catcher is the list with
+   Add = one atomic cons ([addC]/[addW], the modelling assumption stated at C05_all_errors_kept).
+   For that catcher ([cat_adds]: the Adds in the order in which they were executed, whatever the
+   interleaving) the oracle holds whenever g*m Adds were executed, g, m >= 1. *)
+Theorem C05_catcher_oracle_sound : forall g m adds,
+  1 <= g -> 1 <= m -> length adds = g * m ->
+  let cat := cat_adds adds in
+  c05_catcher_ok g m (length cat) (length cat) (0 <? length cat) (0 <? length cat)
+                 (nondecreasing (lens_from [] adds)) = true.
+Proof. exact c05_catcher_oracle_sound. Qed.
+Print Assumptions C05_catcher_oracle_sound.
